@@ -544,7 +544,12 @@ func (e *c15Env) absurdBlock() *types.Block {
 		// a malicious deputy: the block's rightful miner signs the absurd content
 		if d := e.net.DeputyByMiner(e.blks[int(baseIdx)].MinerAddress()); d != nil {
 			if c.Chance("blk", 3, 4) {
-				h.TxRoot = b.Txs.MerkleRootSha()
+				// (an absurd transaction, e.g. a box with an empty sub-transaction, may not be hashable: the attacker then
+				// keeps the old root; the panic would be the harness's, not the node's)
+				func() {
+					defer func() { recover() }()
+					h.TxRoot = b.Txs.MerkleRootSha()
+				}()
 			}
 			hash := h.Hash()
 			if sig, err := crypto.Sign(hash[:], d.Node.Key); err == nil {
